@@ -162,7 +162,17 @@ def new_path(st, r):
         return None
     n = r.randint(1, 4)
     walk = []
-    for _ in range(n):
+    links = [x for x in st.model.recs if x.rt == "L"]
+    if links and gen.chance(r, 0.3):
+        # a path over a link that is there already, in the direction it is written or in the other one -
+        # preferably a link whose segments are not defined yet
+        und = st.undefined()
+        pend = [x for x in links if x.pos[0] in und or x.pos[2] in und]
+        l_ = gen.choice(r, pend) if pend and gen.chance(r, 0.6) else gen.choice(r, links)
+        f_, fo_, t_, to_ = l_.pos[:4]
+        walk = [(f_, fo_), (t_, to_)] if gen.chance(r, 0.5) else [(t_, INV[to_]), (f_, INV[fo_])]
+        n = 2
+    for _ in range(n - len(walk)):
         if walk and gen.chance(r, 0.25):
             walk.append((gen.choice(r, walk)[0], gen.choice(r, "+-")))  # a segment visited again
         else:
